@@ -104,6 +104,9 @@ def canCastOp (j : Json) : R Json := do
   | .ok d => outBool (canCast major (.dtype (← dtOf (← str d))) t)
   | .error _ => outBool (canCast major (.obj (← packOf f)) t)
 
+def promoteOp (j : Json) : R Json := do
+  return .str (dtStr (promote (← dtOf (← strf j "d")) (← dtOf (← strf j "e"))))
+
 def probeOp (j : Json) : R Json := do
   let p ← packOf (← field j "pack")
   return Json.mkObj [("asarray", .str (dtStr p.asarrayDtype)),
@@ -213,7 +216,7 @@ def applyOp (j : Json) : R Json := withVec j "x" fun n x => do
   return ofVec (applyT M x)
 
 def ops : List (String × Handler) :=
-  [("c12.can_cast", canCastOp), ("c12.probe", probeOp), ("c12.is_linalg", isLinalgOp),
+  [("c12.can_cast", canCastOp), ("c12.probe", probeOp), ("c12.promote", promoteOp), ("c12.is_linalg", isLinalgOp),
    ("c12.check_type", checkTypeOp), ("c12.array_like", arrayLikeOp), ("c12.zeros", zerosOp),
    ("c12.identity", identityOp), ("c12.number", numberOp), ("c12.entry_dtype", entryOp),
    ("c12.affine", affineOp), ("c12.segment", segOp), ("c12.circle", circleOp),
